@@ -343,10 +343,10 @@ type transport struct {
 	oldSrv *federation.Server
 	// introspected: schema fetches the current version has answered
 	introspected int
-	srv        *federation.Server
-	requests   int
-	faulty     bool
-	fw         *fedWorld
+	srv          *federation.Server
+	requests     int
+	faulty       bool
+	fw           *fedWorld
 }
 
 func (t *transport) Execute(ctx context.Context, req *federation.QueryRequest) (*federation.QueryResponse, error) {
